@@ -44,12 +44,12 @@ type Checker struct {
 	blDirty  map[uint64]bool
 	Bank     uint64 // bank prefix used by this tier (0: whole bank)
 
-	agg   *Agg
+	agg          *Agg
 	minBudgetEnd time.Time
-	viols []Violation
-	notes []string
-	mach  []string
-	mu    sync.Mutex
+	viols        []Violation
+	notes        []string
+	mach         []string
+	mu           sync.Mutex
 }
 
 func digestProps(p string) bool { return p == "C07" || p == "C08" || p == "C13" || p == "C17" }
@@ -255,6 +255,16 @@ func (c *Checker) evaluate(o evalOpts) (*RunResult, []Violation, error) {
 			vs = append(vs, mk("C08/no-progress/timeout", "the run did not finish within the wall-clock watchdog", "deadlock", -1, 0))
 		} else if c.Prop == "C05" && rr.InFlight != nil {
 			vs = append(vs, mk("C05/hang", fmt.Sprintf("DecodeObject did not return (op %d, %s)", rr.InFlight.Op, subDesc(rr)), "crash", rr.InFlight.Slot, rr.InFlight.Op))
+		} else if rr.InFlight != nil && !rr.Spec.Single {
+			// an operation that does not return: does it return when it runs first and alone in a fresh process?
+			if err := c.ensureBaselines(rr.Spec.Corpus, []uint64{rr.InFlight.Op}); err != nil {
+				return rr, vs, fmt.Errorf("child timed out (watchdog); adjudication failed: %v", err)
+			}
+			if bl := c.bl(rr.Spec.Corpus, rr.InFlight.Op); bl != nil && bl.Cls == "crash" {
+				c.note(fmt.Sprintf("NOTE out-of-scope for %s: op %d does not return in a fresh process either (%s)", c.Prop, rr.InFlight.Op, bl.Err))
+			} else {
+				vs = append(vs, mk(c.Prop+"/hang-depends-on-context", fmt.Sprintf("op %d did not return within the watchdog, although it returns when run first and alone in a fresh process", rr.InFlight.Op), "crash", rr.InFlight.Slot, rr.InFlight.Op))
+			}
 		} else {
 			return rr, vs, fmt.Errorf("child timed out (watchdog)")
 		}
@@ -301,9 +311,9 @@ func subDesc(rr *RunResult) string {
 
 func (c *Checker) childTimeout() time.Duration {
 	if c.Tier == "thorough" {
-		return 300 * time.Second
+		return 240 * time.Second
 	}
-	return 120 * time.Second
+	return 75 * time.Second
 }
 
 // raceOnHarnessMemory: the racy location was allocated by the harness (argument values, input buffers), not by frugal.
